@@ -327,12 +327,14 @@ pub fn check_c20(tier: &str) -> i32 {
         "C20",
         tier,
         "model_checking",
-        "differential + reference-model oracle: every server request sequence (24-symbol alphabet, depth D, TCP/RTU/with authorization), every framing stream of the C05/C06 material under every chunking of the quick bound, and every complete client event path (C10/C11/C12 alphabet, depth D, <= 2 deviations) is executed at DecodeLevel::nothing(), at the highest level, and with a set_decode_level command (server handle / client handle) inserted at every position of the script, in both directions; wire bytes, handler logs, request results with their virtual instants, listener logs and task end must be identical (the decode command itself being the only permitted difference). A formatting tracing subscriber proves that the decode paths really ran at the high level",
+        "differential + reference-model oracle: every server request sequence (24-symbol alphabet, depth D, TCP/RTU/with authorization), every framing stream of the C05/C06 material under every chunking of the quick bound, and every complete client event path (C10/C11/C12 alphabet, depth D, <= 2 deviations) is executed at DecodeLevel::nothing(), at the highest level, and with a set_decode_level command (server handle / client handle) inserted at every position of the script, in both directions; wire bytes, handler logs, request results with their virtual instants, listener logs and task end must be identical (the decode command itself being the only permitted difference). A formatting tracing subscriber proves that the decode paths really ran at the high level. Over real sockets: the production TCP / TLS server task with single level changes and bursts of 12 (more than a session's command queue holds) at every position of short connect / request scripts",
     );
     rep.bounds = json!({"server_depth": if rep.thorough() { 3 } else { 2 }, "client_depth": if rep.thorough() { 7 } else { 6 }});
     server_part(&mut rep);
     client_part(&mut rep);
-    for c in ["decode-output-observed", "server-sequence-low-vs-high", "server-sequence-level-change", "server-stream-low-vs-high", "server-stream-level-change-between-chunks", "client-path-low-vs-high", "client-path-level-change"] {
+    let st = crate::checks::sessions::decode_burst_phase();
+    rep.phase("production TCP / TLS server task: single decode-level changes and bursts of 12 at every position of connect / request scripts", st, json!({}));
+    for c in ["server-task:decode-burst", "decode-output-observed", "server-sequence-low-vs-high", "server-sequence-level-change", "server-stream-low-vs-high", "server-stream-level-change-between-chunks", "client-path-low-vs-high", "client-path-level-change"] {
         rep.require_class(c);
     }
     rep.finish()
